@@ -28,6 +28,10 @@ import re
 from .prologVisitor import prologVisitor
 from .errors import CompilerError
 
+def comment_lines(s):
+    '''turns s into Python comment lines, whatever line breaks it contains.'''
+    return "".join('# ' + l + '\n' for l in (s.splitlines() or ['']))
+
 class PredicateList:
     def __init__(self,head,tail):
         self.head = head
@@ -212,7 +216,7 @@ class YPPrologVisitor(prologVisitor):
 
     def _debug(self,*args):
         if self.context.debug_parser:
-            self.context.outf.write('# ' + " ".join([str(a) for a in args]) + '\n')
+            self.context.outf.write(comment_lines(" ".join([str(a) for a in args])))
 
     def visitProgram(self,ctx):
         clauses = {}
